@@ -61,10 +61,12 @@ class LeastSquaresScipyStrategy(HoloPyObject):
         if len(parameters) == 0:
             raise MissingParameter('at least one parameter to fit')
 
+        image = data
         if self.npixels is None:
             data = flat(data)
         else:
             data = make_subset_data(data, pixels=self.npixels)
+            image = data
         guess_lnprior = model.lnprior(model.initial_guess)
 
         def residual(rescaled_values):
@@ -95,7 +97,7 @@ class LeastSquaresScipyStrategy(HoloPyObject):
         # timing decorator...
         d_time = time.time() - time_start
         kwargs = {'intervals': intervals, 'minimizer_info': minimizer_info}
-        return FitResult(data, model, self, d_time, kwargs)
+        return FitResult(image, model, self, d_time, kwargs)
 
     def minimize(self, parameters, residuals_function):
         initial_parameter_guess = [par.scale(par.guess) for par in parameters]
